@@ -47,6 +47,14 @@ CHECKS = {
    text="Writer side: library output for all 75 property triples with lc+lp<=4 x matchers x dictionary sizes x termination modes x data classes is decoded by the independent reference decoder (and xz-utils when installed) and the header is checked for truthfulness (properties, dictionary >= largest distance, size/marker mode). Reader side: LzmaGen (TLC -simulate, operations only) produces legal operation sequences that are serialised into .lzma streams for all 225 property codes, three termination modes, header dictionary sizes below 4096 / non powers of two, and zero-length content; every generated stream is validated by TLC at operation level (TraceLzma) and then read with lzma.Reader under three ReaderConfig.DictCap values; plus the xz-utils corpus and the repository's sample files.",
    note="Trusted: TLC, internal/ref encoder/decoder (its streams are validated by TLC trace checking; xz-utils agreement on library output when installed).",
    technique="TLA+ operation-layer spec in generation mode realised as .lzma streams; generator traces validated by TLC; real reader/writer compared with the reference codec"),
+ "C09": dict(cat="fault_enumeration", design="§C09",
+   text="Writer side: nine scenarios (xz / classic LZMA / LZMA2; multi-block, multi-chunk, Flush histories, redundant Close, Write after Close, empty writes) are first run fault-free to count the sink writes M; then every fault plan from the TLC-generated set (index k in 1..M exhaustively up to 96 and sampled beyond, fail once / forever, with / without partial write), with the sink offered both as plain io.Writer and as io.ByteWriter, is replayed with every public call under recover. Judged: no panic (also for calls after the failure), a failed sink write implies some call returned non-nil, all-nil implies the reference decoder finds a complete valid stream of the written data. Reader side: every base stream of the three formats x every source offset x {error alone, error together with the last bytes}: opening/reading must return the injected error (errors.Is), never a clean end. A sample of the recorded fault runs is validated by TLC against IoContract.FaultContract.",
+   note="Trusted: fault-injecting sink/source of the harness; reference decoders; TLC for the trace sample. Exhaustive in the fault index per scenario up to 96 sink writes.",
+   technique="exhaustive fault-index enumeration on real writers/readers; TLA+ fault contract validates recorded runs (TLC)"),
+ "C13": dict(cat="model_checking", design="§C13",
+   text="IoContract.ReadSchedule states what any reader over a valid stream may answer to Read(k); TLC checks it exhaustively against an arbitrary contract-abiding reader (IoGen) and generates all schedules of 5 (thorough 6) buffer lengths over {0,1,2,3,64}. Each schedule x five source fragmentations (whole, 1 byte, 1-3 bytes, half buffers, data together with EOF) is run on small structured streams of the three formats (multi-block xz, two xz streams with padding, LZMA2 with raw/reset chunks, .lzma in three termination modes), drained, and followed by four reads after EOF; large streams get seeded random schedules. Every (k,n,err) is judged by the contract (no EOF before all bytes were delivered - also for k=0 -, bytes in order, EOF stable) and a capped sample of recorded schedules is validated by TLC (TraceIo).",
+   note="Trusted: TLC; plaintexts from the reference decoder. Schedules exhaustive to the stated length; the drain phase uses 64-byte reads.",
+   technique="TLA+ read-contract; TLC-generated schedules replayed on the real readers under fragmenting sources; recorded schedules validated by TLC"),
 }
 NOT_YET = "check not built yet in this round (framework under construction; see DESIGN.md §8 build order)"
 def main():
